@@ -44,12 +44,27 @@ def gen_seed(rng):
         return round(rng.random() * 100, 3) + 0.0001
     if k == "intfloat":
         return float(rng.randrange(1000))
-    return rng.choice(["abc", "seed-1", "é", "0"])
+    return rng.choice(["abc", "seed-1", "é", "0", "", " ", "run-a-001", "run-b-001"])
 
 
 def gen_call(rng):
     m = weighted(rng, [("random", 4), ("randoms", 2), ("randint", 3), ("randints", 2), ("shuffle", 3), ("choice", 3),
-                       ("choicew", 3), ("gauss", 3), ("gausses", 1)])
+                       ("choicew", 3), ("gauss", 3), ("gausses", 1), ("choicew_buf", 1)])
+    if m == "choicew_buf":
+        # several draws through ONE weights list that the caller rewrites in place between the calls (a pre-allocated pmf buffer);
+        # the rewrites keep the total, permute the weights or change the total
+        n = 2 + rng.randrange(3)
+        base = [rng.choice([0, 0, 1, 2]) for _ in range(n)]
+        if sum(base) == 0:
+            base[0] = 1
+        vecs = [list(base)]
+        for _ in range(1 + rng.randrange(3)):
+            v = list(vecs[-1])
+            rng.shuffle(v)
+            if rng.random() < 0.3:
+                v[rng.randrange(n)] += 1
+            vecs.append(v)
+        return [m, [[f"i{j}" for j in range(n)], vecs]]
     bounds = rng.choice([(0, 1), (0, 1), (-1, 1), (5, 10), (0.25, 0.5), (-1000.5, 1000), (0, 2 ** -20), (2 ** 20 - 1, 2 ** 20),
                          (2 ** 20 - 2 ** -20, 2 ** 20)])
     if m == "random":
@@ -96,6 +111,13 @@ def do_call(g, call):
         items = list(a[0])
         out = g.shuffle(items, a[1])
         return (list(out), list(items))
+    if m == "choicew_buf":
+        buf = list(a[1][0])
+        out = []
+        for v in a[1]:
+            buf[:] = v
+            out.append(g.choicew(a[0], buf))
+        return out
     return getattr(g, m)(*a)
 
 
@@ -124,6 +146,11 @@ def contract(call, val):
             return f"shuffle returned {out!r}, not a permutation of {a[0]!r}"
         if not a[1] and after != a[0]:
             return f"shuffle(inplace=False) modified its input: {after!r}"
+    elif m == "choicew_buf":
+        for v, r in zip(a[1], val):
+            msg = contract(["choicew", [a[0], v]], r)
+            if msg:
+                return "with a weights list rewritten in place: " + msg
     elif m in ("choice", "choicew"):
         seq, ws = a
         item, w = (val, None) if m == "choice" else val
